@@ -579,7 +579,11 @@ Proof.
 Qed.
 
 Definition array_op (o : op) : bool :=
-  match o with OMkSlice _ _ _ _ | OWrite _ _ _ _ _ => false | _ => true end.
+  match o with
+  | OMkSlice _ _ _ _ | OWrite _ _ _ _ _ | OXAssign _ _ | OXAppend _ _ | OXSet _ _ | OXSetStr _ _
+  | OXAssignSlice _ _ | OXMkSlice _ _ | OXShift _ _ | OXTrim _ _ => false
+  | _ => true
+  end.
 
 Theorem cow_step_arrays st o : inv st -> array_op o = true -> step_ok st o.
 Proof.
@@ -738,12 +742,232 @@ Proof.
     rewrite Wv. reflexivity.
 Qed.
 
+(* ------------------------------------------------------------------ C++ entry points *)
+Lemma step_xappend st x d : inv st -> step_ok st (OXAppend x d).
+Proof.
+  intros I. arr_guards I st x Hx Hs.
+  eapply (arr_step st (OXAppend x d) false _ (fun h => s_append h (aval (sheap st) (hbuf (hnd st x))) d));
+    auto; [arr_eq_step Hx Hs | arr_eq_spec Hx Hs | ].
+  intros cnt acc. rewrite x_append_eq. apply array_append_sem, inv_aok, I.
+Qed.
+
+Lemma step_xset st x d : inv st -> step_ok st (OXSet x d).
+Proof.
+  intros I. arr_guards I st x Hx Hs.
+  eapply (arr_step st (OXSet x d) false _ (fun h => s_xset d));
+    auto; [arr_eq_step Hx Hs | arr_eq_spec Hx Hs | ].
+  intros cnt acc. apply x_set_sem, inv_aok, I.
+Qed.
+
+Lemma step_xsetstr st x text : inv st -> step_ok st (OXSetStr x text).
+Proof.
+  intros I. arr_guards I st x Hx Hs.
+  eapply (arr_step st (OXSetStr x text) false _ (fun h => s_xsetstr text));
+    auto; [arr_eq_step Hx Hs | arr_eq_spec Hx Hs | ].
+  intros cnt acc. apply x_set_str_sem.
+Qed.
+
+(* reference assignment: handle x takes over the array value [s] of another handle *)
+Lemma ref_assign_sound st x s (k : bool) (off len : nat) :
+  inv st -> x < length (shnd st) ->
+  (forall j, s = Some j -> exists c, hget (sheap st) j = Some c) ->
+  let r := ref_assign (sheap st) (hbuf (hnd st x)) s in
+  let h' := mkh (snd r) k off len in
+  snd r = s /\ inv (mkst (fst r) (lset (shnd st) x h')) /\ frame st x (fst r) /\
+  (forall j, s = Some j -> hval (fst r) j = hval (sheap st) j).
+Proof.
+  intros I Hx Hk. cbn zeta. unfold ref_assign. set (hp := sheap st). set (a := hbuf (hnd st x)).
+  destruct (match a, s with Some i, Some j => i =? j | None, None => true | _, _ => false end) eqn:Eq.
+  - assert (a = s) as Eas.
+    { destruct a as [i|], s as [j|]; try discriminate; [apply Nat.eqb_eq in Eq; subst|]; reflexivity. }
+    cbn [fst snd]. split; [exact Eas|].
+    destruct (ptrans_sound st x a hp a (mkh a k off len) I Hx eq_refl (P_same _ _) eq_refl) as [I' F].
+    split; [exact I'|]. split; [exact F|]. intros; reflexivity.
+  - cbn [fst snd]. split; [reflexivity|]. destruct s as [j|].
+    + destruct (Hk j eq_refl) as [c Ec].
+      assert (Hne : a <> Some j).
+      { intros E. rewrite E in Eq. rewrite Nat.eqb_refl in Eq. discriminate. }
+      destruct (share_sound st x a j c (mkh (Some j) k off len) I Hx eq_refl Ec Hne eq_refl) as [I' [F V]].
+      fold hp in I', F, V. unfold unref_opt in I', F, V.
+      split; [exact I'|]. split; [exact F|]. intros j' Hj. inversion Hj; subst. exact V.
+    + destruct a as [i|] eqn:Ea; [|discriminate].
+      destruct (drop_sound st x (Some i) (mkh None k off len) I Hx Ea eq_refl) as [I' F].
+      fold hp in I', F. cbn [unref_opt] in I', F.
+      split; [exact I'|]. split; [exact F|]. intros; discriminate.
+Qed.
+
+Lemma step_xassign st x y : inv st -> step_ok st (OXAssign x y).
+Proof.
+  intros I. arr_guards I st x Hx Hs.
+  unfold step_ok, step, sstep. cbn [target is_slice_op].
+  rewrite abs_length, (proj2 (Nat.ltb_lt _ _) Hx), Hs, !nth_abs, (absh_arr _ _ Hs). cbn [negb Bool.eqb].
+  destruct (Nat.ltb_spec y (length (shnd st))) as [Hy|Hy]; cbn [negb orb].
+  2:{ split; [discriminate|]. split; [exact I|reflexivity]. }
+  destruct (hsl (hnd st y)) eqn:Hsy.
+  { unfold absh. rewrite Hsy. cbn [fst]. split; [discriminate|]. split; [exact I|reflexivity]. }
+  rewrite (absh_arr _ _ Hsy). cbn [fst snd].
+  assert (Hk : forall j, hbuf (hnd st y) = Some j -> exists c, hget (sheap st) j = Some c).
+  { intros j Hj. destruct (inv_get st y j I Hj) as [c [Ec _]]. eauto. }
+  pose proof (ref_assign_sound st x (hbuf (hnd st y)) (hsl (hnd st x)) (hoff (hnd st x)) (hlen (hnd st x)) I Hx Hk) as R.
+  cbn zeta in R. destruct (ref_assign (sheap st) (hbuf (hnd st x)) (hbuf (hnd st y))) as [hp1 a1].
+  cbn [fst snd] in R. destruct R as [Ea [I' [F V]]]. subst a1.
+  split; [discriminate|]. split; [exact I'|]. unfold upd_arr.
+  rewrite (abs_frame st x hp1 _ Hx F). rewrite absh_arr by exact Hs. cbn [hbuf s_xassign D fst snd vis].
+  f_equal. f_equal. f_equal. unfold aval. destruct (hbuf (hnd st y)) as [j|]; [|reflexivity].
+  exact (eq_sym (V j eq_refl)).
+Qed.
+
+Lemma win_all b : buf_wf b -> win b 0 (bused b) = bview b.
+Proof. intros W. unfold win. simpl skipn. apply firstn_all2. rewrite (bview_length _ W). lia. Qed.
+
+Ltac slice_guards I st x Hx Hs :=
+  destruct (Nat.ltb_spec x (length (shnd st))) as [Hx|Hx];
+  [ | apply guard_ok;
+      [ exact I
+      | unfold step; cbn [target]; rewrite (proj2 (Nat.ltb_ge _ _) Hx); reflexivity
+      | intros ?h; unfold sstep; cbn [target]; rewrite abs_length, (proj2 (Nat.ltb_ge _ _) Hx); reflexivity ] ];
+  destruct (hsl (hnd st x)) eqn:Hs;
+  [ | apply guard_ok;
+      [ exact I
+      | unfold step; cbn [target is_slice_op]; rewrite (proj2 (Nat.ltb_lt _ _) Hx), Hs; reflexivity
+      | intros ?h; unfold sstep; cbn [target is_slice_op];
+        rewrite abs_length, (proj2 (Nat.ltb_lt _ _) Hx), nth_abs; unfold absh; rewrite Hs; reflexivity ] ].
+
+Lemma step_xmkslice st x y : inv st -> step_ok st (OXMkSlice x y).
+Proof.
+  intros I. slice_guards I st x Hx Hs.
+  unfold step_ok, step, sstep. cbn [target is_slice_op].
+  rewrite abs_length, (proj2 (Nat.ltb_lt _ _) Hx), Hs, !nth_abs, (absh_sl _ _ Hs). cbn [negb Bool.eqb].
+  destruct (Nat.ltb_spec y (length (shnd st))) as [Hy|Hy]; cbn [negb orb].
+  2:{ split; [discriminate|]. split; [exact I|reflexivity]. }
+  destruct (hsl (hnd st y)) eqn:Hsy.
+  { unfold absh. rewrite Hsy. cbn [fst]. split; [discriminate|]. split; [exact I|reflexivity]. }
+  rewrite (absh_arr _ _ Hsy). cbn [fst snd].
+  assert (Hk : forall j, hbuf (hnd st y) = Some j -> exists c, hget (sheap st) j = Some c).
+  { intros j Hj. destruct (inv_get st y j I Hj) as [c [Ec _]]. eauto. }
+  set (len := match hbuf (hnd st y) with
+              | Some k => match hget (sheap st) k with Some c => if btr c =? 0 then bused c else 0 | None => 0 end
+              | None => 0 end).
+  pose proof (ref_assign_sound st x (hbuf (hnd st y)) true 0 len I Hx Hk) as R.
+  cbn zeta in R. destruct (ref_assign (sheap st) (hbuf (hnd st x)) (hbuf (hnd st y))) as [hp1 a1].
+  cbn [fst snd] in R. destruct R as [Ea [I' [F V]]]. subst a1.
+  split; [discriminate|]. split; [exact I'|].
+  rewrite (abs_frame st x hp1 _ Hx F). rewrite absh_sl by reflexivity. cbn [hbuf hoff hlen s_xmks D fst snd vis].
+  f_equal. f_equal. f_equal. subst len. destruct (hbuf (hnd st y)) as [j|] eqn:Ey; [|reflexivity].
+  rewrite (wval_hval _ _ _ _ _ (V j eq_refl)). unfold wval, aval.
+  destruct (inv_get st y j I Ey) as [c [Ec [Wc _]]]. rewrite Ec. cbn [option_map]. unfold bval.
+  destruct (btr c =? 0); [rewrite win_all by exact Wc; reflexivity|reflexivity].
+Qed.
+
+(* window arithmetic of slice::shift / slice::trim on a window inside the data *)
+Lemma cons_len st x : inv st -> consistent st x = true ->
+  length (svec (wval (sheap st) (hbuf (hnd st x)) (hoff (hnd st x)) (hlen (hnd st x)))) = hlen (hnd st x).
+Proof.
+  intros I C. unfold consistent in C. unfold wval. destruct (hbuf (hnd st x)) as [i|] eqn:Ha.
+  - destruct (inv_get st x i I Ha) as [b [E [W _]]]. rewrite E in *. cbn [option_map svec]. apply Nat.leb_le in C.
+    unfold win. rewrite firstn_length, skipn_length, (bview_length _ W). lia.
+  - apply Nat.leb_le in C. cbn [svec length]. lia.
+Qed.
+
+Lemma hcons_of st o out : hcons (hint_of st o out) = cons_of st o.
+Proof. reflexivity. Qed.
+
+Lemma window_step st x off' len' : inv st -> x < length (shnd st) -> hsl (hnd st x) = true ->
+  let st' := mkst (sheap st) (lset (shnd st) x (mkh (hbuf (hnd st x)) true off' len')) in
+  inv st' /\ abs st' = lset (abs st) x (true, wval (sheap st) (hbuf (hnd st x)) off' len').
+Proof.
+  intros I Hx Hs st'. subst st'.
+  destruct (ptrans_sound st x _ (sheap st) _ (mkh (hbuf (hnd st x)) true off' len') I Hx eq_refl (P_same _ _) eq_refl)
+    as [I' F].
+  split; [exact I'|]. rewrite (abs_frame st x _ _ Hx F), absh_sl by reflexivity. reflexivity.
+Qed.
+
+Lemma step_xshift st x n : inv st -> step_ok st (OXShift x n).
+Proof.
+  intros I. slice_guards I st x Hx Hs.
+  unfold step_ok, step, sstep. cbn [target is_slice_op].
+  rewrite abs_length, (proj2 (Nat.ltb_lt _ _) Hx), Hs, nth_abs, (absh_sl _ _ Hs). cbn [negb Bool.eqb].
+  unfold s_xshift. destruct (consistent st x) eqn:C; cbn [negb].
+  2:{ rewrite hcons_of. cbn [cons_of target]. rewrite C. cbn [negb G fst snd].
+      split; [discriminate|]. split; [exact I|]. rewrite lset_abs_same_sl by assumption. reflexivity. }
+  rewrite (cons_len st x I C).
+  destruct (Nat.ltb_spec (hlen (hnd st x)) n) as [Hn|Hn].
+  { rewrite hcons_of. cbn [cons_of target]. rewrite C. cbn [negb R fst snd].
+    split; [discriminate|]. split; [exact I|]. rewrite lset_abs_same_sl by assumption. reflexivity. }
+  rewrite hcons_of. cbn [cons_of target]. rewrite C. cbn [negb D fst snd vis].
+  destruct (window_step st x (hoff (hnd st x) + n) (hlen (hnd st x) - n) I Hx Hs) as [I' A'].
+  split; [discriminate|]. split; [exact I'|]. rewrite A'. f_equal. f_equal. f_equal.
+  unfold wval. destruct (hbuf (hnd st x)) as [i|]; [|reflexivity].
+  destruct (hget (sheap st) i) as [b|]; [|reflexivity]. cbn [option_map]. f_equal. f_equal.
+  unfold win. list_eq.
+Qed.
+
+Lemma step_xtrim st x n : inv st -> step_ok st (OXTrim x n).
+Proof.
+  intros I. slice_guards I st x Hx Hs.
+  unfold step_ok, step, sstep. cbn [target is_slice_op].
+  rewrite abs_length, (proj2 (Nat.ltb_lt _ _) Hx), Hs, nth_abs, (absh_sl _ _ Hs). cbn [negb Bool.eqb].
+  unfold s_xtrim. destruct (consistent st x) eqn:C; cbn [negb].
+  2:{ rewrite hcons_of. cbn [cons_of target]. rewrite C. cbn [negb G fst snd].
+      split; [discriminate|]. split; [exact I|]. rewrite lset_abs_same_sl by assumption. reflexivity. }
+  pose proof (cons_len st x I C) as CL. rewrite CL.
+  destruct (Nat.ltb_spec (hlen (hnd st x)) n) as [Hn|Hn].
+  { rewrite hcons_of. cbn [cons_of target]. rewrite C. cbn [negb R fst snd].
+    split; [discriminate|]. split; [exact I|]. rewrite lset_abs_same_sl by assumption. reflexivity. }
+  rewrite hcons_of. cbn [cons_of target]. rewrite C. cbn [negb D fst snd vis].
+  destruct (window_step st x (hoff (hnd st x)) (hlen (hnd st x) - n) I Hx Hs) as [I' A'].
+  split; [discriminate|]. split; [exact I'|]. rewrite A'. f_equal. f_equal. f_equal.
+  unfold wval in *. destruct (hbuf (hnd st x)) as [i|]; [|reflexivity].
+  destruct (hget (sheap st) i) as [b|]; [|reflexivity]. cbn [option_map svec] in *. f_equal. f_equal.
+  rewrite CL. unfold win. rewrite firstn_firstn. f_equal. lia.
+Qed.
+
+Lemma step_xassign_slice st x s : inv st -> step_ok st (OXAssignSlice x s).
+Proof.
+  intros I. arr_guards I st x Hx Hs.
+  destruct (Nat.ltb_spec s (length (shnd st))) as [Hy|Hy].
+  2:{ apply guard_ok; [exact I| |].
+      - unfold step. cbn [target is_slice_op]. rewrite (proj2 (Nat.ltb_lt _ _) Hx), Hs, (proj2 (Nat.ltb_ge _ _) Hy). reflexivity.
+      - intros h. unfold sstep. cbn [target is_slice_op].
+        rewrite abs_length, (proj2 (Nat.ltb_lt _ _) Hx), nth_abs, (absh_arr _ _ Hs), (proj2 (Nat.ltb_ge _ _) Hy). reflexivity. }
+  destruct (hsl (hnd st s)) eqn:Hss.
+  2:{ apply guard_ok; [exact I| |].
+      - unfold step. cbn [target is_slice_op]. rewrite (proj2 (Nat.ltb_lt _ _) Hx), Hs, (proj2 (Nat.ltb_lt _ _) Hy), Hss. reflexivity.
+      - intros h. unfold sstep. cbn [target is_slice_op].
+        rewrite abs_length, (proj2 (Nat.ltb_lt _ _) Hx), !nth_abs, (absh_arr _ _ Hs), (proj2 (Nat.ltb_lt _ _) Hy).
+        unfold absh at 1. rewrite Hss. reflexivity. }
+  destruct (consistent st s) eqn:C.
+  2:{ unfold step_ok, step, sstep. cbn [target is_slice_op].
+      rewrite abs_length, (proj2 (Nat.ltb_lt _ _) Hx), Hs, (proj2 (Nat.ltb_lt _ _) Hy), Hss, C, !nth_abs,
+        (absh_arr _ _ Hs), (absh_sl _ _ Hss). cbn [negb orb Bool.eqb fst snd].
+      unfold s_xasl. rewrite hcons_of. cbn [cons_of]. rewrite C. cbn [G fst snd].
+      split; [discriminate|]. split; [exact I|]. rewrite lset_abs_same by assumption. reflexivity. }
+  set (w := wval (sheap st) (hbuf (hnd st s)) (hoff (hnd st s)) (hlen (hnd st s))).
+  assert (Sem : forall cnt acc, ares_ok (sheap st) (hbuf (hnd st x))
+            (x_assign_slice (sheap st) (hbuf (hnd st x)) (hbuf (hnd st s)) (hoff (hnd st s)) (hlen (hnd st s)))
+            ((fun _ : hint => D (Some (0, svec w))) (hint_at (sheap st) (hbuf (hnd st x)) cnt acc)) false).
+  { intros cnt acc. apply x_assign_slice_sem; [apply inv_aok, I|apply inv_aok, I|].
+    unfold consistent in C. destruct (hbuf (hnd st s)) as [k|].
+    - destruct (hget (sheap st) k); [apply Nat.leb_le; exact C|discriminate].
+    - apply Nat.leb_le; exact C. }
+  pose proof (fin_sound st x false _ (fun _ => D (Some (0, svec w))) I Hx Hs Sem) as F. cbn zeta in F.
+  unfold step_ok, step, sstep. cbn [target is_slice_op].
+  rewrite abs_length, (proj2 (Nat.ltb_lt _ _) Hx), Hs, (proj2 (Nat.ltb_lt _ _) Hy), Hss, C, !nth_abs,
+    (absh_arr _ _ Hs), (absh_sl _ _ Hss). cbn [negb orb Bool.eqb fst snd].
+  destruct (fin st x false _) as [st' out]. cbn [fst snd] in F. destruct F as [F1 [F2 F3]].
+  split; [exact F1|]. split; [exact F2|].
+  unfold s_xasl. rewrite hcons_of. cbn [cons_of]. rewrite C. fold w. exact F3.
+Qed.
+
+
 Theorem cow_step_all st o : inv st -> step_ok st o.
 Proof.
   intros I. destruct o;
     auto using step_append, step_insert, step_set, step_slice, step_clone, step_reduce,
                step_bufinsert, step_bufcut, step_bufset, step_new, step_flags,
-               step_reserve, step_printf, step_string, step_mkslice, step_write.
+               step_reserve, step_printf, step_string, step_mkslice, step_write,
+               step_xassign, step_xappend, step_xset, step_xsetstr, step_xassign_slice, step_xmkslice,
+               step_xshift, step_xtrim.
 Qed.
 
 (* ------------------------------------------------------------------ the statements of Properties.v *)
